@@ -229,7 +229,9 @@ class PathEval(object):
     MAXSTATES = 20000
 
     def __init__(self, program, func, env, is_effect=None, pure=PURE, depth=0, fail_value=None, memo=None, maxstates=None, through_effects=False, dirty_paths=False,
-                 call_values=None, markers=None, observe=None, split=None, starts=None, track=None, exact_counters=False, observe_callees=False):
+                 call_values=None, markers=None, observe=None, split=None, starts=None, track=None, exact_counters=False, observe_callees=False, callee_effect=None, observe_exit=None):
+        self.observe_exit = observe_exit   # callback(kind, node or None, env) at every function exit reached ("return" / "end")
+        self.callee_effect = callee_effect   # dirty-path mode: effect predicate used INSIDE evaluated callees (their parameters are not ours); default: is_effect
         self.observe_callees = observe_callees   # also report elements reached inside evaluated callees (helpers)
         self.exact_counters = exact_counters   # compute ++/--/+= on known values instead of widening them (bounded explorations only)
         self.track = track                 # optional set of lvalue keys whose constants are kept (others are treated as unknown: fewer states, more paths)
@@ -303,16 +305,23 @@ class PathEval(object):
             return self.memo[key]
         self.memo[key] = None      # recursion guard
         try:
-            sub = PathEval(self.P, g, genv, self.custom_effect, self.pure, self.depth + 1, None, self.memo, maxstates=3000, through_effects=True,
+            sub = PathEval(self.P, g, genv, (self.callee_effect or self.custom_effect) if self.dirty_paths else self.custom_effect, self.pure, self.depth + 1, None, self.memo,
+                           maxstates=3000, through_effects=True, dirty_paths=self.dirty_paths, callee_effect=self.callee_effect,
                            observe=self.observe if self.observe_callees else None, call_values=self.call_values)
             out = sub.run()
         except AnalysisBroken:
             return None
+        fail_dirty = True
+        if self.dirty_paths:
+            # per-path effects: does a FAILING return of the callee come after one of its writes?
+            fail_dirty = any(t[0] == "return" and t[4] and t[5] is not None for t in out.terminals)
+            anyd = any(t[5] is not None for t in out.terminals)
+            out.terminals = [t[:5] for t in out.terminals] + ([("effect", None, None, None, False)] if anyd else [])
         res = {"fail": sorted(set((v, e if not isinstance(e, frozenset) else tuple(sorted(e, key=str))) for (k, v, e, loc, fail) in out.terminals if k == "return" and fail), key=str),
                "ok": set(v for (k, v, e, loc, fail) in out.terminals if k in ("return", "end") and not fail),
                "effect": any(k == "effect" for (k, v, e, loc, fail) in out.terminals),
                "has_ok": any(k in ("return", "end") and not fail for (k, v, e, loc, fail) in out.terminals),
-               "ptr": sub.ret_ptr}
+               "ptr": sub.ret_ptr, "fail_dirty": fail_dirty}
         self.memo[key] = res
         return res
 
@@ -388,10 +397,12 @@ class PathEval(object):
                     err = r[1]
                 elif isinstance(r, tuple) and r[0] == "fork":
                     # r[1]: list of (env-updates, errno or KEEP)
-                    for upd, e2 in r[1]:
+                    for upd, e2, *eff in r[1]:
                         env2 = dict(env)
                         env2.update(upd)
-                        push((b, i, tuple(sorted(env2.items())), err if e2 == "KEEP" else e2, dirty))
+                        # dirty-path mode: a fork may carry its own effect (callee wrote on that outcome only)
+                        d2 = dirty if dirty is not None or not (eff and eff[0]) else f.loc(n)
+                        push((b, i, tuple(sorted(env2.items())), err if e2 == "KEEP" else e2, d2))
                     stop = True
                     break
             if stop:
@@ -440,6 +451,8 @@ class PathEval(object):
             for s in nxt:
                 push((s, 0, tuple(sorted(env.items())), err, dirty))
             if f.exit in nxt and not self._ends_with_return(blk):
+                if self.observe_exit is not None:
+                    self.observe_exit("end", None, env)
                 out.terminals.append(("end", None, err, "%s:end" % f.name, False) + ((dirty,) if self.dirty_paths else ()))
         out.states = len(seen)
         return out
@@ -460,6 +473,8 @@ class PathEval(object):
         f = self.f
         k = n["k"]
         if k == "Return":
+            if self.observe_exit is not None:
+                self.observe_exit("return", n, env)
             ev = self.evaluator(env)
             e = n["c"][0] if n.get("c") else None
             v = ev.ev(e) if e is not None else None
@@ -593,9 +608,9 @@ class PathEval(object):
                 e2 = list(flat)[0] if len(flat) == 1 else frozenset(str(x) for x in flat)
                 if e2 is None:
                     e2 = "KEEP"
-                forks.append((upd, e2))
+                forks.append((upd, e2, bool(is_eff and o["fail_dirty"])))
             if o["has_ok"]:
-                if is_eff:
+                if is_eff and not self.dirty_paths:
                     out.terminals.append(("effect", None, err, f.loc(n), False))
                 if not is_eff or self.through:
                     upd = {}
@@ -605,7 +620,7 @@ class PathEval(object):
                         # assumption (documented): a pointer-returning function yields NULL only at its literal
                         # NULL returns or by propagating a callee's failure; any other returned pointer is non-NULL
                         upd = {ck: 1}
-                    forks.append((upd, "KEEP"))
+                    forks.append((upd, "KEEP", bool(is_eff)))
             if not forks:
                 return "stop"
             return ("fork", forks)
